@@ -463,7 +463,7 @@ impl<'a> Gen<'a> {
             7 => Decimal::from(100u32),
             8 => Decimal::MAX.checked_sub(Decimal::from_attos(I192::from(1))).unwrap(),
             9 => Decimal::from_attos(I192::from(10i128.pow(17))),
-            _ => Decimal::from_attos(I192::from(self.rng.range(-5_000_000_000_000_000_000, 5_000_000_000_000_000_000) as i128 * 40)),
+            _ => Decimal::from_attos(I192::from((self.rng.next() as i64 as i128) * 20)),
         }
     }
     fn nfid(&mut self) -> NonFungibleLocalId {
@@ -856,8 +856,28 @@ impl Runner for NativeR {
             Ok(e) => e,
             Err(_) => return Answer::ok("not-preparable"),
         };
-        let cfg = ExecutionConfig::for_notarized_transaction(NetworkDefinition::simulator());
-        let r = catch(|| execute_transaction(&env.db, &self.vm, &cfg, &exe));
+        // twice: with the auth module (as a notarized transaction), and with auth disabled (as previews
+        // with `disable_auth` run) so that the call reaches the native code whatever the badges are
+        let cfg_auth = ExecutionConfig::for_notarized_transaction(NetworkDefinition::simulator());
+        let cfg_noauth = ExecutionConfig::for_notarized_transaction(NetworkDefinition::simulator()).update_system_overrides(|mut o| {
+            o.disable_auth = true;
+            o
+        });
+        let mut answers: Vec<String> = vec![];
+        for cfg in [cfg_auth, cfg_noauth] {
+            let r = catch(|| execute_transaction(&env.db, &self.vm, &cfg, &exe));
+            let a = Self::judge(r, &name);
+            if a.fail.is_some() {
+                return a;
+            }
+            answers.push(a.ans);
+        }
+        Answer::ok(answers.join(" | "))
+    }
+}
+
+impl NativeR {
+    fn judge(r: Result<TransactionReceipt, String>, name: &str) -> Answer {
         match r {
             Err(msg) => Answer::fail("host-panic", format!("native-panic:{}", name), format!("execute_transaction panicked: {}", msg.chars().take(300).collect::<String>())),
             Ok(receipt) => match &receipt.result {
